@@ -303,7 +303,7 @@ func (i *InsertStatement) Format(opts FormatOptions) string {
 	if i.Query != nil {
 		sb.WriteString(f.clauseSep())
 		if fq, ok := i.Query.(Formatter); ok {
-			sb.WriteString(fq.Format(opts))
+			sb.WriteString(fq.Format(nestedOpts(opts)))
 		} else {
 			sb.WriteString(stmtSQL(i.Query))
 		}
@@ -544,7 +544,7 @@ func (s *SetOperation) Format(opts FormatOptions) string {
 
 	if s.Left != nil {
 		if ls, ok := s.Left.(Formatter); ok {
-			sb.WriteString(ls.Format(opts))
+			sb.WriteString(ls.Format(nestedOpts(opts)))
 		} else {
 			sb.WriteString(stmtSQL(s.Left))
 		}
@@ -558,7 +558,7 @@ func (s *SetOperation) Format(opts FormatOptions) string {
 	sb.WriteString(f.clauseSep())
 	if s.Right != nil {
 		if rs, ok := s.Right.(Formatter); ok {
-			sb.WriteString(rs.Format(opts))
+			sb.WriteString(rs.Format(nestedOpts(opts)))
 		} else {
 			sb.WriteString(stmtSQL(s.Right))
 		}
@@ -709,7 +709,7 @@ func (c *CreateViewStatement) Format(opts FormatOptions) string {
 	sb.WriteString(f.kw("AS"))
 	sb.WriteString(f.clauseSep())
 	if qs, ok := c.Query.(Formatter); ok {
-		sb.WriteString(qs.Format(opts))
+		sb.WriteString(qs.Format(nestedOpts(opts)))
 	} else {
 		sb.WriteString(stmtSQL(c.Query))
 	}
@@ -759,7 +759,7 @@ func (c *CreateMaterializedViewStatement) Format(opts FormatOptions) string {
 	sb.WriteString(f.kw("AS"))
 	sb.WriteString(f.clauseSep())
 	if qs, ok := c.Query.(Formatter); ok {
-		sb.WriteString(qs.Format(opts))
+		sb.WriteString(qs.Format(nestedOpts(opts)))
 	} else {
 		sb.WriteString(stmtSQL(c.Query))
 	}
@@ -899,11 +899,20 @@ func formatOperand(e Expression, minPrec int, opts FormatOptions) string {
 	return formatExpr(e, opts)
 }
 
-// formatStmt formats a statement using Format if available, otherwise SQL().
+// nestedOpts returns the options for a statement written inside another one
+// (sub-query, CTE body, set-operation operand, INSERT ... SELECT, view query):
+// only the outermost statement is terminated by a semicolon.
+func nestedOpts(opts FormatOptions) FormatOptions {
+	opts.AddSemicolon = false
+	return opts
+}
+
+// formatStmt formats a nested statement using Format if available, otherwise SQL().
 func formatStmt(s Statement, opts FormatOptions) string {
 	if s == nil {
 		return ""
 	}
+	opts = nestedOpts(opts)
 	if fs, ok := s.(Formatter); ok {
 		return fs.Format(opts)
 	}
@@ -1153,7 +1162,7 @@ func formatWith(w *WithClause, f *formatter) string {
 		}
 		s += f.kw("AS") + " ("
 		if qs, ok := cte.Statement.(Formatter); ok {
-			s += qs.Format(f.opts)
+			s += qs.Format(nestedOpts(f.opts))
 		} else {
 			s += stmtSQL(cte.Statement)
 		}
